@@ -1,7 +1,7 @@
 (* Dispatch: the single entry point [run : sx -> sx] of the executable model. *)
 From Coq Require Import List ZArith NArith Bool.
 From Coq Require Import QArith.
-From SV Require Import Sx Str Omap Beat Props Notes Group Msd Simfile Engine TimingSrc Generated.Tables.
+From SV Require Import Sx Str Omap Beat Props Notes Group Msd Simfile Engine TimingSrc Convert Generated.Tables.
 Open Scope Z_scope.
 Import ListNotations.
 Open Scope Z_scope.
@@ -163,6 +163,18 @@ Definition run_tsrc (cmd : Z) (args : list sx) : sx :=
   | _, _ => bad_request
   end.
 
+Definition run_convert (cmd : Z) (args : list sx) : sx :=
+  match cmd, args with
+  | 160, [sf; cs; ts; tc] =>
+      do sf' <- un_props sf; do cs' <- un_list un_props cs; do ts' <- un_tmpl_sf ts; do tc' <- un_opt un_props tc;
+      ok (sx_cres sx_conv (sm_to_ssc sf' cs' ts' tc'))
+  | 161, [sf; cs; ts; tc; beh] =>
+      do sf' <- un_props sf; do cs' <- un_list un_props cs; do ts' <- un_tmpl_sf ts; do tc' <- un_opt un_props tc;
+      do beh' <- un_list (un_pair un_Z un_Z) beh;
+      ok (sx_cres sx_conv (ssc_to_sm sf' cs' ts' tc' beh'))
+  | _, _ => bad_request
+  end.
+
 Definition dispatch_request (req : sx) : sx :=
   match req with
   | L (A cmd :: args) =>
@@ -172,6 +184,7 @@ Definition dispatch_request (req : sx) : sx :=
       else if (90 <=? cmd) && (cmd <? 100) then run_group cmd args
       else if (110 <=? cmd) && (cmd <? 120) then run_engine cmd args
       else if (150 <=? cmd) && (cmd <? 160) then run_tsrc cmd args
+      else if (160 <=? cmd) && (cmd <? 170) then run_convert cmd args
       else if (180 <=? cmd) && (cmd <? 190) then run_props cmd args
       else bad_request
   | _ => bad_request
